@@ -219,6 +219,14 @@ def namespace(header):
 
 # ---- hand-written variants of a value (same value, other tokens / layout)
 def render_noisy(rng: random.Random, e, p=0.35, parens=False, comments=True, depth=0):
+    txt = _render_noisy(rng, e, p, parens, comments, depth)
+    if parens and depth > 0 and rng.random() < 0.25:
+        k = rng.choice([1, 1, 2])
+        txt = "(" * k + txt + ")" * k
+    return txt
+
+
+def _render_noisy(rng: random.Random, e, p=0.35, parens=False, comments=True, depth=0):
     t = e[0]
     ws = lambda: rng.choice(["", "", " ", "  "])  # noqa
     if t == "int" and rng.random() < p and abs(e[1]) < 1000:
